@@ -12,6 +12,11 @@ Decided (ordering / dataflow origin rules on Encoder::{new,encode,finalize_inner
               together with the reduced padding size; the placeholder refill keeps the point count
   C09.cap     all three seek-table builders cap the point count at SeekTable::MAX_POINTS before the unwrap
   C09.bs      both STREAMINFO block-size fields come from options.block_size, which also sizes the front-ends' chunking
+  C09.md5     the front-end protocol shared with C08 (.md5.sib / .md5.md5 / .md5.trunc): MD5 is fed with the little-endian
+              bytes of exactly the data that is encoded
+  C09.count   Counter / CrcWriter account the bytes the inner stream reported: seek point byte offsets and frame sizes
+  C09.len     the declared total of the byte / sample writers is converted by exact division (channels, bytes per sample)
+  C09.cast    no unaudited narrowing cast in encode.rs / lib.rs (sample counts and offsets must use try_from)
 Not decided: numeric truth of the fields for a given input.
 """
 from rules.common import *
